@@ -2,6 +2,7 @@ package props
 
 import (
 	"fmt"
+	"math/rand/v2"
 	"regexp"
 	"strings"
 
@@ -57,8 +58,42 @@ type c11Case struct {
 	Source string `json:"generator"`
 }
 
+// c11GlobCase: a wildcard pattern with many `*` against a long name made of the pattern's own literal, with a tail that
+// cannot match - a matcher that tries every split point of every star needs time exponential in the number of stars,
+// the pattern and the name together stay well under 200 bytes.
+func c11GlobCase(r *rand.Rand) c11Case {
+	ch := string(rune('a' + r.IntN(3)))
+	name := strings.Repeat(ch, 48+r.IntN(40))
+	stars := 14 + r.IntN(8)
+	pat := strings.Repeat(ch+"*", stars) + "z"
+	c := c11Case{In: "yaml", Out: []string{"yaml", "json", "props"}[r.IntN(3)], Source: "many-star-glob", All: r.IntN(8) == 0}
+	c.Input = name + ": 1\nother: 2\nname: " + name + "\npattern: \"" + pat + "\"\nlist: [" + name + ", x]\n"
+	switch r.IntN(8) {
+	case 0:
+		c.Expr = "." + pat
+	case 1:
+		c.Expr = ".name == .pattern"
+	case 2:
+		c.Expr = ".list[] | select(. == \"" + pat + "\")"
+	case 3:
+		c.Expr = "del(." + pat + ")"
+	case 4:
+		c.Expr = ".[\"" + pat + "\"] = 3"
+	case 5:
+		c.Expr = "with_entries(select(.key == \"" + pat + "\"))"
+	case 6:
+		c.Expr = ".name != .pattern"
+	default:
+		c.Expr = "[.. | select(. == \"*" + pat + "\")] | length"
+	}
+	return c
+}
+
 func c11Gen(w *mon.Worker, idx int) c11Case {
 	r := w.Rand(idx)
+	if idx%2000 == 77 {
+		return c11GlobCase(r)
+	}
 	var c c11Case
 	switch r.IntN(10) {
 	case 0, 1, 2, 3:
